@@ -4207,6 +4207,15 @@ fn diff_abi_def(a: &AbiTraitDefinition, b: &AbiTraitDefinition, path: String, is
                     return Some(diff);
                 }
             }
+            // A method's return value is always in return position
+            if let Some(diff) = diff_schema(
+                &amet.info.return_value,
+                &bmet.info.return_value,
+                format!("{}(return value)", amet.name),
+                true,
+            ) {
+                return Some(diff);
+            }
         }
     }
     return None;
